@@ -12,7 +12,7 @@ CONFIG = dict(
     driver="modeld_c06",
     driver_root="Cell2v.Driver.C06",
     audit="Audit/C06.lean",
-    required_theorems=["decode_encode", "decode_total", "packets_roundtrip", "varint_roundtrip", "header_roundtrip"],
+    required_theorems=["decode_encode", "decode_total", "packets_roundtrip", "varint_roundtrip", "header_roundtrip", "SetDictionary_bijective", "decode_encode_any_dictionary", "frame_ok_iff_valid"],
     harness_pkg="./c06",
     mode="diff",
     runs={
